@@ -42,7 +42,7 @@ Parent(c) == ParentIn(kids, c)
 AncSelf(n) ==
   LET N == Cardinality(Node)
       up[i \in 0..N] == IF i = 0 THEN {n}
-                        ELSE up[i-1] \cup ({ParentIn(kids, x) : x \in up[i-1]} \ {NIL})
+                        ELSE LET u == up[i-1] IN u \cup ({ParentIn(kids, x) : x \in u} \ {NIL})
   IN up[N]
 
 Remove(s, c) == SelectSeq(s, LAMBDA x : x # c)
@@ -62,7 +62,7 @@ Out(op) == IF Emit THEN PrintT(ToJson(op)) ELSE TRUE
 AncSelfIn(k, n) ==
   LET N == Cardinality(Node)
       up[i \in 0..N] == IF i = 0 THEN {n}
-                        ELSE up[i-1] \cup ({ParentIn(k, x) : x \in up[i-1]} \ {NIL})
+                        ELSE LET u == up[i-1] IN u \cup ({ParentIn(k, x) : x \in u} \ {NIL})
   IN up[N]
 LegalIn(k, p, c) == c \notin AncSelfIn(k, p)      \* c # p and c is not an ancestor of p
 
@@ -82,6 +82,9 @@ ReplaceTo(k, p, old, c)  == LET d == Detach(k, c) IN
 RemoveTo(k, p, c)        == IF c \in Range(k[p]) THEN [k EXCEPT ![p] = Remove(@, c)] ELSE k
 RemoveAllTo(k, p)        == [k EXCEPT ![p] = <<>>]
 SortTo(k, p)             == {[k EXCEPT ![p] = t] : t \in SortedPerms(k[p])}
+\* the same as a predicate (o \in SortTo(k, p) without enumerating permutations: long sibling lists)
+SortAllows(k, p, o)      == /\ \A q \in Node \ {p} : o[q] = k[q]
+                            /\ Len(o[p]) = Len(k[p]) /\ Range(o[p]) = Range(k[p]) /\ IsSorted(o[p])
 
 \* guard (the property's proviso) and the set of allowed results of one call
 OpOk(k, op, p, r, c) ==
